@@ -14,7 +14,14 @@ Max2(a, b) == IF a > b THEN a ELSE b
 CenterIn(box, p) == 2 * box[1] <= p[1] /\ p[1] <= 2 * box[3] /\ 2 * box[2] <= p[2] /\ p[2] <= 2 * box[4]
 Half2(shape, q) == IF q % 2 = 0 THEN <<shape[2], shape[3]>> ELSE <<shape[3], shape[2]>>      \* doubled half sizes = full sizes
 Gap2(lo, hi, c) == Max2(Max2(2 * lo - c, c - 2 * hi), 0)                                   \* doubled distance of c to [lo, hi]
-ShapeMeets(box, shape, p) ==
+(* <<"roff", l, w>>: an l x w rectangle whose own centre is OFFSET by one unit along its length axis from the obstacle's *)
+(* reference point (Rectangle(l, w, center=(1, 0))): the occupancy is centred at Anchor, the CENTRE relation still     *)
+(* follows the state's position                                                                                        *)
+Anchor(shape, p) ==           \* (Rectangle.rotate_translate_local turns the rectangle about ITS OWN centre and then
+    IF shape[1] # "roff" THEN p   \*  translates it: the offset itself is not turned with the orientation)
+    ELSE <<p[1] + 2, p[2], p[3]>>
+ShapeMeets(box, shape, p0) ==
+    LET p == Anchor(shape, p0) IN
     IF shape[1] = "disc"
     THEN LET dx == Gap2(box[1], box[3], p[1])  dy == Gap2(box[2], box[4], p[2])
          IN dx * dx + dy * dy <= (2 * shape[2]) * (2 * shape[2])
@@ -23,7 +30,8 @@ ShapeMeets(box, shape, p) ==
             /\ p[2] - h[2] <= 2 * box[4] /\ 2 * box[2] <= p[2] + h[2]
 
 (* strict version: the shape meets the INTERIOR of the box (more than boundary contact) *)
-ShapeMeetsStrict(box, shape, p) ==
+ShapeMeetsStrict(box, shape, p0) ==
+    LET p == Anchor(shape, p0) IN
     IF shape[1] = "disc"
     THEN LET dx == Gap2(box[1], box[3], p[1])  dy == Gap2(box[2], box[4], p[2])
          IN dx * dx + dy * dy < (2 * shape[2]) * (2 * shape[2])
